@@ -91,7 +91,10 @@ def redeclare(rng, r):
             p["size"] = E.sym(rng.choice(others))
         elif scope:
             a = E.sym(rng.choice(scope))
-            p["size"] = rng.choice([E.op("add", a, E.num(1)), E.op("mul", E.num(2), a), E.op("add", a, E.sym(rng.choice(scope))), E.op("sub", E.op("mul", E.num(2), a), E.num(1))])
+            others = [x for x in scope if x != a[1]]
+            two = E.op("add", E.op("mul", E.num(2), a), E.sym(rng.choice(others))) if others else E.op("mul", E.num(2), a)
+            # (an asymmetric expression over two names of the scope: a mix-up of the two shows)
+            p["size"] = rng.choice([E.op("add", a, E.num(1)), E.op("mul", E.num(2), a), two, two, E.op("sub", E.op("mul", E.num(2), a), E.num(1))])
         else:
             p["size"] = E.num(rng.randint(1, 3))
         k += 1
